@@ -66,7 +66,9 @@ def ser_items(rng, a, its):
             out.append("[^inline %s %s]" % (words(rng), ser_items(rng, a, a["defs"]["F"][d])))
         else:
             sig, nm, _ = KIND[k]
-            out.append("[%s%s%d]" % (sig, nm, d))
+            # (a citation may carry a locator, on its first use as well as on later ones: the anchors are the same)
+            loc = "[%s %d]" % (rng.choice(["p.", "pp.", "ch.", "see"]), rng.randint(1, 99)) if k == "C" and rng.random() < 0.4 else ""
+            out.append("%s[%s%s%d]" % (loc, sig, nm, d))
         out.append(words(rng, 0, 2))
     return " ".join(x for x in out if x)
 
@@ -187,6 +189,12 @@ def notes_part(rep, tier, rng, bad):
             else:
                 what = "correspondence broken: AnchorModel.v vs html.c; model %s impl %s" % (" ".join(mtr)[:200], " ".join(itr)[:200])
             case["model"] = " ".join(mtr); case["impl"] = " ".join(itr)
+            if kind == "model-vs-impl" and not (e & E["random_foot"]):
+                # the search for a failing input: a link of the real output that leads nowhere is one
+                dang, dup = dangling(r.out)
+                dang = [h for h in dang if not (flags[1] == "0" and re.match(r"(fn|gn):\d+$", h)) and not (flags[2] == "0" and re.match(r"cnref:\d+$", h))]
+                if dang: kind, what = "dangling-href", "href without matching id: %s" % dang[:5]
+                elif dup: kind, what = "duplicate-id", "id used twice: %s" % dup[:5]
             bad.append((kind, what, case)); continue
         ncorr += 1
         # the model and the code agree; a call without entry is then exactly the case the theorem excludes
